@@ -92,30 +92,39 @@ structure Rbe3Packed (α : Type) where
   um : Option (Nat × List Nat)
   nuset : Nat
 
-/-- the packaging of `formrbe3`'s arguments -/
-def packRbe3 [OfNat α 1] (u : UsetTab α) (gdep dofdep : Nat) (il : List (IndGroup α))
-    (um : Option (List (Nat × Nat))) : Option (Rbe3Packed α) := do
+/-- `UM_List`: expanded, its size compared with the number of dependent DOF (`ValueError` if different), then
+reduced to rows of the table; -> (number of m-set DOF named, their rows in `UM_List` order) -/
+def umRows (ud : List (Nat × Nat)) (ndd : Nat) : Option (List (Nat × Nat)) → Option (Option (Nat × List Nat))
+  | none => some none
+  | some l =>
+    match expandDof l with
+    | none => none
+    | some m => if m.length != ndd then none else some (some (m.length, m.filterMap (rowOf ud)))
+
+/-- the packed input once every look-up has succeeded: `ddof` = expanded dependent DOF, `ind` = independent DOF
+that are rows of the table (`Ind_List` order), `umk` = m-set rows, `dep` = the dependent grid -/
+def packWith (u : UsetTab α) (gdep : Nat) (ddof : List (Nat × Nat)) (ind : List (Nat × Nat × IndDof α))
+    (umk : Option (Nat × List Nat)) (dep : GridR α) : Rbe3Packed α :=
   let ud := usetDof u
   let nuset := ud.length
-  let ddof ← expandDof [(gdep, dofdep)]
-  let ind ← indRowsOf u il
-  -- UM_List: expanded, size compared with the dependent DOF, then reduced to rows of the table
-  let umk ← match um with
-    | none => some none
-    | some l =>
-      match expandDof l with
-      | none => none
-      | some m => if m.length != ddof.length then none else some (some (m.length, m.filterMap (rowOf ud)))
-  let dep ← gridOf u gdep
   let inds := sortByRow ind nuset
-  some {
-    grids := partGrids u (gdep :: inds.map fun e => e.2.1)
+  { grids := partGrids u (gdep :: inds.map fun e => e.2.1)
     dep := dep
     ddofs := ddof.map fun d => (d.2 + 5) % 6
     dkeys := ddof.map fun d => (rowOf ud d).getD nuset
     inds := inds.map fun e => (e.1, e.2.2)
     um := umk
     nuset := nuset }
+
+/-- the packaging of `formrbe3`'s arguments -/
+def packRbe3 [OfNat α 1] (u : UsetTab α) (gdep dofdep : Nat) (il : List (IndGroup α))
+    (um : Option (List (Nat × Nat))) : Option (Rbe3Packed α) :=
+  match expandDof [(gdep, dofdep)], indRowsOf u il, gridOf u gdep with
+  | some ddof, some ind, some dep =>
+    match umRows (usetDof u) ddof.length um with
+    | some umk => some (packWith u gdep ddof ind umk dep)
+    | none => none
+  | _, _, _ => none
 
 variable [Add α] [Sub α] [Mul α] [Div α] [Neg α] [OfNat α 0] [OfNat α 1] [OfNat α 180] [TransOps α] [LT α]
   [∀ a b : α, Decidable (a < b)]
